@@ -45,8 +45,8 @@ macro_rules! gh_obj {
 
 pub fn dispatch(op: &str, a: &[&str]) -> Option<Ans> {
     let b: Vec<Vec<u8>> = match op {
-        "generichash" | "generichash_inc" | "generichash_obj" => a[1..].iter().map(|s| unhex(s)).collect(),
-        _ => a.iter().map(|s| unhex(s)).collect(),
+        "generichash" | "generichash_inc" | "generichash_obj" => a[1..].iter().map(|s| unhex_lenient(s)).collect(),
+        _ => a.iter().map(|s| unhex_lenient(s)).collect(),
     };
     Some(match op {
         "poly1305" => {
@@ -162,7 +162,7 @@ pub fn dispatch(op: &str, a: &[&str]) -> Option<Ans> {
             let key = &b[0];
             let mut out = vec![0u8; outlen];
             let r = crypto_generichash(&mut out, &b[1], if key.is_empty() { None } else { Some(key) });
-            let s = if outlen >= 1 && outlen <= 64 && key.len() <= 64 { so_generichash(outlen, key, &b[1]) } else { "err".into() };
+            let s = if outlen >= 16 && outlen <= 64 && (key.is_empty() || (key.len() >= 16 && key.len() <= 64)) { so_generichash(outlen, key, &b[1]) } else { "err".into() }; // libsodium's documented ranges (BYTES_MIN/KEYBYTES_MIN); the C function itself is laxer
             (if r.is_ok() { ok(&out) } else { "err".into() }, s)
         }
         "generichash_inc" => {
@@ -178,7 +178,7 @@ pub fn dispatch(op: &str, a: &[&str]) -> Option<Ans> {
                 crypto_generichash_final(st, &mut out)?;
                 Ok(out)
             })();
-            let s = if outlen >= 1 && outlen <= 64 && key.len() <= 64 { so_generichash(outlen, key, &all) } else { "err".into() };
+            let s = if outlen >= 16 && outlen <= 64 && (key.is_empty() || (key.len() >= 16 && key.len() <= 64)) { so_generichash(outlen, key, &all) } else { "err".into() };
             (match r { Ok(v) => ok(&v), Err(_) => "err".into() }, s)
         }
         // object API, a few (key length, out length) instantiations
